@@ -6,11 +6,11 @@
 package pvsssim
 
 import (
+	"crypto/sha256"
 	"fmt"
 	"os"
 
 	"go.dedis.ch/kyber/v4"
-	"go.dedis.ch/kyber/v4/group/p256"
 	"go.dedis.ch/kyber/v4/proof/dleq"
 	"go.dedis.ch/kyber/v4/share"
 	"go.dedis.ch/kyber/v4/share/pvss"
@@ -75,8 +75,8 @@ func randScalar(g kyber.Group, t *core.Tape, label string) kyber.Scalar {
 func (Engine) RunOne(t *core.Tape, prop, tier string, info *core.RunInfo) *core.Violation {
 	var suite pvss.Suite = kit.Ed()
 	gname := "ed25519"
-	if t.Bool("cfg.group", 300) {
-		suite, gname = p256.NewBlakeSHA256P256(), "p256"
+	if alt := altSuite(); t.Bool("cfg.group", 300) && alt != nil && os.Getenv("VERIF_ED_ONLY") == "" {
+		suite, gname = alt, "p256"
 	}
 	g := kyber.Group(suite)
 	n := t.Range("cfg", 2, 10)
@@ -192,6 +192,17 @@ func (Engine) RunOne(t *core.Tape, prop, tier string, info *core.RunInfo) *core.
 		if i < n && (encTouched[i] || (commitTouched && !sHp[i].Equal(sH[i]))) {
 			return viol("enc-verify", "altered-enc-share-accepted/"+gname, "encrypted share %d was altered (or its commitment was) but is in the batch result", i)
 		}
+	}
+	{
+		h := sha256.New()
+		for _, e := range posted {
+			b, _ := e.S.V.MarshalBinary()
+			h.Write(b)
+			c, _ := e.P.C.MarshalBinary()
+			h.Write(c)
+		}
+		wb, _ := want.MarshalBinary()
+		info.Logf("dealing transcript: encshares#%x secret-commit %x", h.Sum(nil)[:8], wb)
 	}
 	info.SigAdd("enc:%d/%d", len(E), n)
 	info.Logf("dealing n=%d t=%d: %d/%d encrypted shares verify (touched=%v commit=%v)", n, th, len(E), n, encTouched, commitTouched)
